@@ -239,10 +239,11 @@ def run_case(spec, ctx):
             who, rank = None, -1
             for i2 in np.where(bad)[0][:40]:
                 w = geo.contact_op(E, {kk: v[[i2]] for kk, v in env.items()}, tol["tol_b"])
-                r = 2 if w is None else (1 if not w.endswith("~") else 0)     # off the contact set > exactly on it > within rounding of it
+                # off the contact set > exactly on it > exactly on it with a polygon operand > within rounding of it
+                r = 3 if w is None else (0 if "~" in w else (1 if w.endswith("-poly") else 2))
                 if r > rank:
                     who, rank, i = w, r, i2
-                if r == 2:
+                if r == 3:
                     break
             ctx.violation("far-row-accepted", who or _blame_boundary(E, {kk: v[[i]] for kk, v in env.items()}, tol["tol_b"]),
                           f"{bad.sum()} rows farther than {100 * tol['tol_b']:.3g} from the boundary accepted, e.g. "
